@@ -39,7 +39,19 @@ pub fn has_any_self_by_value<'s>(
 
 /// `self` (or `self: Self`), as opposed to `&self` or its typed spelling `self: &Self`
 pub fn receiver_is_by_value(receiver: &syn::Receiver) -> bool {
-    receiver.reference.is_none() && !matches!(receiver.ty.as_ref(), syn::Type::Reference(_))
+    receiver.reference.is_none()
+        && !matches!(peel_type(receiver.ty.as_ref()), syn::Type::Reference(_))
+}
+
+/// The type inside parentheses and inside the invisible group that wraps a `macro_rules!` `$t:ty` fragment
+pub fn peel_type(mut ty: &syn::Type) -> &syn::Type {
+    loop {
+        ty = match ty {
+            syn::Type::Paren(paren) => paren.elem.as_ref(),
+            syn::Type::Group(group) => group.elem.as_ref(),
+            ty => return ty,
+        }
+    }
 }
 
 #[derive(Clone)]
